@@ -23,6 +23,7 @@ func init() {
 			"package variables of security are written only at start-up (checked: who-may-write)",
 		},
 		Rules: []RuleDef{
+			{"C02/buffer-ownership", "the cookie that is examined is the one this connection sent: a packet is read, assembled and handed on in storage of the call or the connection, no package-level or pooled buffer that the returned packet still aliases", func(c *Ctx) { packetBuffersPrivate(c, "C02/buffer-ownership") }},
 			{"C02/accept-chain", "every accepting return of CheckPAACookie is gated by parse, MAC, validate and UserInfo, each with checked result and the right arguments", c02AcceptChain},
 			{"C02/no-bypass", "no unverified-claims API, only frozen algorithm allow-lists, SigningKey written only at start-up", c02NoBypass},
 			{"C02/mint", "GeneratePAAToken: HS256 under SigningKey, same issuer as the verifier, constant lifetime <= 5 min, key length guard", c02Mint},
